@@ -75,9 +75,11 @@ func initWaitGroup() {
 	Def(
 		c,
 		"wait",
-		func(_ *Thread, args []value.Value) (value.Value, value.Value) {
+		func(vm *Thread, args []value.Value) (value.Value, value.Value) {
 			self := (*value.WaitGroup)(args[0].Pointer())
-			self.Wait()
+			if err := self.WaitCtx(vm.Aborter.Context()); !err.IsUndefined() {
+				return value.Undefined, err
+			}
 			return value.Nil, value.Undefined
 		},
 	)
